@@ -4,6 +4,7 @@ package main
 // policy (VIOLATION / KNOWN-FINDING), evidence files.
 
 import (
+	"hash/fnv"
 	"os/exec"
 	"context"
 	"regexp"
@@ -173,6 +174,11 @@ func cmdCheck(args []string) int {
 	}
 	t1 := time.Now()
 	solveAll(all, secs, mode, 16)
+	reachSecs := 1
+	if *tier == "thorough" {
+		reachSecs = 3
+	}
+	reach := reachAll(all, reachSecs)
 	solveSecs := time.Since(t1).Seconds()
 
 	// lemmas: stand-alone SMT files that must be unsat
@@ -242,6 +248,14 @@ func cmdCheck(args []string) int {
 			}
 		}
 	}
+	// obligations none of whose paths is reachable are not discharged, whatever the solver said
+	for _, rv := range reach {
+		if o := byName[rv.Obl]; o != nil && o.OK {
+			o.OK = false
+			o.Reason = rv.Output
+		}
+	}
+	vacuity += reachQueries
 	// canaries: one live return path is enough
 	for _, o := range byName {
 		if o.Kind != "canary" {
@@ -541,4 +555,146 @@ func writeReplay(dir, id string, o *oblResult, extra map[string]interface{}) str
 	data, _ := json.MarshalIndent(rec, "", " ")
 	os.WriteFile(path, data, 0644)
 	return path
+}
+
+// reachAll: a reachability check behind every proof obligation. An obligation that is discharged on every
+// path because the assumptions collected on those paths contradict each other (a contradictory requires, an
+// over-strong assumed contract, a modelling error of the engine) proves nothing. The assumptions of a VC (the
+// VC without its negated goal) are given to a solver; "unsat" means the path is dead. Assumptions only grow
+// along a path, so the longest contexts are solved first and every context that is a prefix of a live one is
+// live without a query. An obligation none of whose paths is live is reported as a vacuity failure; paths that
+// are individually dead are normal (a branch excluded by a callee's contract). Obligations whose goal is
+// `false` (a panic, a Fatal call that must be unreachable) are discharged BY a dead path and are skipped.
+var reachQueries int
+
+type reachCtx struct {
+	text   string
+	final  uint64
+	prefix []uint64
+	src    *VC
+	done   bool
+	live   bool
+}
+
+func reachAll(all []*VC, limit int) []*VC {
+	byObl := map[string][]*reachCtx{}
+	var order []string
+	ctxs := map[uint64]*reachCtx{}
+	for _, vc := range all {
+		if vc.ExpectSat || vc.Known || vc.SMT == "" || vc.Solver == "trivial" || vc.Kind == "effect" || vc.Kind == "lemma" || vc.Kind == "binding" {
+			continue
+		}
+		t := strings.TrimRight(vc.SMT, "\n")
+		i := strings.LastIndex(t, "\n(assert ")
+		if i < 0 {
+			continue
+		}
+		if g := strings.TrimSpace(t[i+1:]); g == "(assert true)" {
+			continue // goal `false`: proved exactly by showing the path dead
+		}
+		if strings.HasPrefix(vc.Kind, "safe") {
+			// generated safety obligations (nil, bounds, overflow) inside a defensive branch that the
+			// contracts prove dead (`if err != nil { logrus.Fatal(err) }`) are dead with it: normal.
+			// The function-level canary still demands one live return path.
+			continue
+		}
+		text := t[:i+1]
+		h := fnv.New64a()
+		var pre []uint64
+		for _, ln := range strings.SplitAfter(text, "\n") {
+			h.Write([]byte(ln))
+			if strings.HasPrefix(ln, "(assert ") {
+				pre = append(pre, h.Sum64())
+			}
+		}
+		fin := h.Sum64()
+		rc := ctxs[fin]
+		if rc == nil {
+			rc = &reachCtx{text: text, final: fin, prefix: pre, src: vc}
+			ctxs[fin] = rc
+		}
+		if _, ok := byObl[vc.Obl]; !ok {
+			order = append(order, vc.Obl)
+		}
+		byObl[vc.Obl] = append(byObl[vc.Obl], rc)
+	}
+	liveHash := map[uint64]bool{}
+	for {
+		// undecided contexts that are not a proper prefix of another undecided context
+		inner := map[uint64]bool{}
+		var undecided []*reachCtx
+		for _, rc := range ctxs {
+			if rc.done {
+				continue
+			}
+			if liveHash[rc.final] {
+				rc.done, rc.live = true, true
+				continue
+			}
+			undecided = append(undecided, rc)
+		}
+		if len(undecided) == 0 {
+			break
+		}
+		for _, rc := range undecided {
+			for _, p := range rc.prefix {
+				if p != rc.final {
+					inner[p] = true
+				}
+			}
+		}
+		var batch []*VC
+		var owners []*reachCtx
+		for _, rc := range undecided {
+			if inner[rc.final] {
+				continue
+			}
+			batch = append(batch, &VC{Obl: rc.src.Obl + "/reach", Kind: "reach", Fn: rc.src.Fn, Path: rc.src.Path, ExpectSat: true, Goal: "the assumptions on this path are satisfiable", SMT: rc.text, Pos: rc.src.Pos})
+			owners = append(owners, rc)
+		}
+		if len(batch) == 0 { // cannot happen (a longest undecided context is never inner); guard against a hash collision
+			for _, rc := range undecided {
+				rc.done, rc.live = true, true
+			}
+			break
+		}
+		reachLimit = limit
+		solveAll(batch, limit, "quick1", 16)
+		reachQueries += len(batch)
+		for i, rv := range batch {
+			rc := owners[i]
+			rc.done = true
+			if vcGood(rv) {
+				rc.live = true
+				liveHash[rc.final] = true
+				for _, p := range rc.prefix {
+					liveHash[p] = true
+				}
+			}
+		}
+	}
+	if os.Getenv("GOVC_REACH_STATS") != "" {
+		nl := 0
+		for _, rc := range ctxs {
+			if rc.live {
+				nl++
+			}
+		}
+		fmt.Fprintf(os.Stderr, "reach: %d obligations, %d distinct contexts (%d live), %d queries\n", len(order), len(ctxs), nl, reachQueries)
+	}
+	var out []*VC
+	for _, o := range order {
+		alive := false
+		for _, rc := range byObl[o] {
+			if rc.live {
+				alive = true
+			}
+		}
+		if !alive {
+			src := byObl[o][0].src
+			out = append(out, &VC{Obl: o, Kind: "reach", Fn: src.Fn, Path: src.Path, Status: "unsat", Solver: "reachability", Goal: "reachable on at least one path", Pos: src.Pos,
+				Output: fmt.Sprintf("the assumptions are contradictory on every one of the %d path(s) that reach this obligation: it is discharged vacuously", len(byObl[o]))})
+		}
+	}
+	return out
 }
